@@ -19,3 +19,38 @@ package slicepool
 //@   ensures wf_pool(s) && len(ret) == n && s.size == old(s.size)
 //@   ensures [region] (ref(ret) == old(ref(s.pool)) && off(ret) == old(off(s.pool))) || (fresh(ret) && off(ret) == 0)
 //@   ensures [advance] ref(s.pool) == ref(ret) && off(s.pool) == off(ret) + n
+
+// ObjectPool: every pooled pointer is non-nil and the allocator is set. The fields are
+// unexported, so only this package can write them (or lock the mutex): NewObjectPoolEx
+// establishes the invariant, Get and Return preserve it (Return must not be handed nil) and
+// release the lock, hence Get never returns nil.
+//@ pred wf_opool(p) := p.newer != nil && (forall i in [0, len(p.pool)) :: p.pool[i] != nil)
+
+// the allocator callback: returns a new object, touches nothing else
+//@ functype rare/pkg/slicepool.ObjectPool.newer
+//@   pure
+//@   ensures result != nil
+
+//@ functype rare/pkg/slicepool.NewObjectPoolEx#newer
+//@   pure
+//@   ensures result != nil
+
+//@ func NewObjectPoolEx
+//@   requires size >= 0 && newer != nil
+//@   ensures result != nil && wf_opool(result) && !mu_held(result)
+//@   loop 1 invariant !mu_held(ret) && ret.newer != nil && len(ret.pool) == size && 0 <= i && (forall j in [0, i) :: ret.pool[j] != nil)
+
+//@ func NewObjectPool
+//@   requires size >= 0
+//@   ensures result != nil && wf_opool(result) && !mu_held(result)
+
+//@ func (*ObjectPool[T]).Get
+//@   requires [objinv] wf_opool(s) && !mu_held(s)
+//@   modifies s.pool, ghost mu_held(s)
+//@   ensures wf_opool(s) && !mu_held(s) && ret != nil
+
+//@ func (*ObjectPool[T]).Return
+//@   requires [objinv] wf_opool(s) && !mu_held(s)
+//@   requires obj != nil
+//@   modifies s.pool, s.pool[..], ghost mu_held(s)
+//@   ensures wf_opool(s) && !mu_held(s)
